@@ -19,7 +19,7 @@ LEVEL_NOTE = "reference lookup: last coordinate <= value, 0 below the axis, n ab
 RULE = (
     "Hypothesis: time axis t0 + i*dt (n_t in 1..12), frequency axis f0 + j*df (n_f in 1..12), dims order drawn, contents drawn (zeros / ramp / NaN); "
     "0-4 geometries from {BoundingBox, TimeInterval, Polygon (rect, triangle, L, diamond), MultiPolygon, LineString, Point, TimeStamp, MultiPoint} with vertices "
-    "at quarter-bin positions from 2 bins before to 2 bins after each axis; values scalar / list / wrong-length list, fill, dtype in {float32, float64, int32, uint8}, "
+    "at quarter-bin positions from 2 bins before to 2 bins after each axis; values scalar / list / wrong-length list, fill, dtype in {float32, float64, int32, uint8, int16, uint16, uint32, int64} with values and fill exactly representable in it (0-9 or a per-dtype palette such as 0.1, 2^24+1, 2^32-1), "
     "all_touched on/off. Non-trivial = non-square template, or >= 2 geometries with different values whose bounding bins overlap."
 )
 ASSUMPTIONS = [
@@ -27,7 +27,19 @@ ASSUMPTIONS = [
     "exact per-cell oracle only when every geometry is an area type whose image in bin-index space is a valid polygon; otherwise cells are only required to be in {fill} U values and the superset law is checked",
 ]
 
-DTYPES = ["float32", "float64", "int32", "uint8"]
+DTYPES = ["float32", "float64", "int32", "uint8", "int16", "uint16", "uint32", "int64"]
+# values / fills exactly representable in the requested dtype (so the result must hold them exactly), including ones that a narrower
+# intermediate buffer (float32, int32) cannot hold
+PALETTE = {
+    "float32": [0.5, 2.25, 16777216, 255],
+    "float64": [0.1, 0.3, 16777217, 1e-50, 255],
+    "int32": [16777217, -16777217, 2147483647, -5, 255],
+    "uint8": [200, 255, 128],
+    "int16": [-32768, 32767, -3, 255],
+    "uint16": [65535, 40000, 255],
+    "uint32": [4294967295, 16777217, 255],
+    "int64": [1099511627776, -16777217, 255],
+}
 LINE_TYPES = ("LineString", "MultiLineString", "Point", "MultiPoint", "TimeStamp")
 
 
@@ -105,19 +117,21 @@ def case(draw):
             g = {"type": kind, "coordinates": [[T(tq()), F(fq())] for _ in range(draw(st.integers(1, 3)))]}
         geoms.append(g)
     vmode = draw(st.sampled_from(["scalar", "list", "list", "default", "wrong_len"]))
+    dtype = draw(st.sampled_from(DTYPES + ["float32", "float64", "int32", "uint8"]))
+    val = st.one_of(st.integers(0, 9), st.integers(0, 9), st.sampled_from(PALETTE[dtype]))
     vals = None
     if vmode == "scalar":
-        vals = draw(st.integers(0, 9))
+        vals = draw(val)
     elif vmode == "list":
-        vals = [draw(st.integers(0, 9)) for _ in geoms]
+        vals = [draw(val) for _ in geoms]
     elif vmode == "wrong_len":
         vals = [draw(st.integers(1, 9)) for _ in range(len(geoms) + draw(st.sampled_from([1, 2])))]
         if len(geoms) > 0 and draw(st.booleans()):
             vals = vals[: len(geoms) - 1]
-    fill = draw(st.sampled_from([0, 0, 3, 10, 255]))
+    fill = draw(st.sampled_from([0, 0, 0, 3, 10] + PALETTE[dtype]))
     return {
         "nt": nt, "nf": nf, "t0": t0, "dt": dt, "f0": f0, "df": df, "order": order, "contents": contents,
-        "geoms": geoms, "vmode": vmode, "values": vals, "fill": fill, "dtype": draw(st.sampled_from(DTYPES)),
+        "geoms": geoms, "vmode": vmode, "values": vals, "fill": fill, "dtype": dtype,
         "all_touched": draw(st.booleans()), "tuple_values": draw(st.booleans()),
     }
 
